@@ -68,7 +68,9 @@ struct Spy : P {
 
 static int g_extra_ctor, g_extra_dtor;
 struct Extra {
-    int value;
+    // pointer-sized: policies that keep a trailer behind the frame store a pointer at frame+size, and an extra object
+    // whose size is not a multiple of the pointer size would make that store misaligned (alignment is not part of C19)
+    long value;
     Extra() : value(77) { g_extra_ctor++; }
     Extra(const Extra &o) : value(o.value) { g_extra_ctor++; }
     Extra(Extra &&o) noexcept : value(o.value) { g_extra_ctor++; }
@@ -112,8 +114,8 @@ static void start_coro(St &st, Slot *slot, int cls, int tag) {
         frame_coro<St, 1000>(st, slot, tag).detach();
 }
 
-enum Policy { P_DEFAULT = 0, P_REUSABLE, P_MTSAFE, P_STACK, P_PLACEMENT, P_BUFFER, P_EXTRA_DEFAULT, P_EXTRA_REUSABLE, NPOL };
-static const char *pol_names[] = {"default", "reusable", "reusable_mtsafe", "stack_storage", "placement_alloc", "reusable_buffer", "extra+default", "extra+reusable"};
+enum Policy { P_DEFAULT = 0, P_REUSABLE, P_MTSAFE, P_STACK, P_PLACEMENT, P_BUFFER, P_EXTRA_DEFAULT, P_EXTRA_REUSABLE, P_EXTRA_MTSAFE, NPOL };
+static const char *pol_names[] = {"default", "reusable", "reusable_mtsafe", "stack_storage", "placement_alloc", "reusable_buffer", "extra+default", "extra+reusable", "extra+reusable_mtsafe"};
 static bool single_frame(int p) { return p == P_REUSABLE || p == P_PLACEMENT || p == P_BUFFER || p == P_EXTRA_REUSABLE; }
 
 enum { CREATE_S = 0, CREATE_M, CREATE_L, FINISH0, FINISH1, FINISH2, NOPS };
@@ -173,6 +175,10 @@ struct HExtraDefault {
     Spy<cocls::promise_extra_storage<Extra, cocls::default_storage>> st{[] { return Extra(); }};
     auto &next() { return st; }
 };
+struct HExtraMtsafe {
+    Spy<cocls::promise_extra_storage<Extra, cocls::reusable_storage_mtsafe>> st{[] { return Extra(); }};
+    auto &next() { return st; }
+};
 struct HExtraReusable {
     Spy<cocls::promise_extra_storage<Extra, cocls::reusable_storage>> st{[] { return Extra(); }};
     auto &next() { return st; }
@@ -197,7 +203,8 @@ static void run_policy(seqx::Runner &R, int pol, const std::vector<int> &seq) {
         auto h = std::make_unique<H>();
         bool seen_cls[3] = {false, false, false};
         int max_cls_seen = -1;
-        bool is_extra = pol == P_EXTRA_DEFAULT || pol == P_EXTRA_REUSABLE;
+        bool is_extra = pol == P_EXTRA_DEFAULT || pol == P_EXTRA_REUSABLE || pol == P_EXTRA_MTSAFE;
+        bool is_mtsafe = pol == P_MTSAFE || pol == P_EXTRA_MTSAFE;
         int tag = 1;
         for (size_t i = 0; i < seq.size() && !R.case_fail; i++) {
             int op = seq[i];
@@ -218,7 +225,7 @@ static void run_policy(seqx::Runner &R, int pol, const std::vector<int> &seq) {
                 uint64_t news = seqx::news() - news_before;
                 if (!s->started) R.fail("storage/coroutine-did-not-start", "coroutine did not run to its first suspension");
                 // warm-up rule for the reusing policies: an equally sized (or smaller) frame needs no further heap memory
-                bool reusing = pol == P_REUSABLE || pol == P_BUFFER || pol == P_EXTRA_REUSABLE || pol == P_PLACEMENT || (pol == P_MTSAFE && live.empty());
+                bool reusing = pol == P_REUSABLE || pol == P_BUFFER || pol == P_EXTRA_REUSABLE || pol == P_PLACEMENT || (is_mtsafe && live.empty());
                 if (reusing && cls <= max_cls_seen && news != 0)
                     R.fail("storage/allocation-after-warm-up", "%s: creating a frame of class %d after warm-up with class %d performed %lu heap allocations", pol_names[pol], cls,
                            max_cls_seen, (unsigned long)news);
@@ -234,7 +241,7 @@ static void run_policy(seqx::Runner &R, int pol, const std::vector<int> &seq) {
                 }
                 seen_cls[cls] = true;
                 // warm-up knowledge: the thread-safe variant only learns from frames that went into its block
-                if (cls > max_cls_seen && !(pol == P_MTSAFE && !live.empty())) max_cls_seen = cls;
+                if (cls > max_cls_seen && !(is_mtsafe && !live.empty())) max_cls_seen = cls;
                 seqx::NoCount nc;
                 live.push_back(std::move(s));
             } else {
@@ -289,6 +296,7 @@ static void run_case(seqx::Runner &R, int pol, const std::vector<int> &seq) {
         case P_BUFFER: run_policy<HBuffer>(R, pol, seq); break;
         case P_EXTRA_DEFAULT: run_policy<HExtraDefault>(R, pol, seq); break;
         case P_EXTRA_REUSABLE: run_policy<HExtraReusable>(R, pol, seq); break;
+        case P_EXTRA_MTSAFE: run_policy<HExtraMtsafe>(R, pol, seq); break;
     }
 }
 
